@@ -250,7 +250,7 @@ def template_case(draw):
             r, f = draw(st.sampled_from([("id", "05d"), ("w", ".3e"), ("a", ".2f"), ("x", ".1f"), ("id", "d"), ("w", "8.2f"), ("name", "s")]))
             parts.append(["ref", r, None, f])
         elif k == "slice":
-            parts.append(["ref", "name", draw(st.sampled_from(["5:", ":4", "2:6", "0"])), None])
+            parts.append(["ref", "name", draw(st.sampled_from(["5:", ":4", "2:6", "0", "3:3"])), None])     # 3:3 is empty
         elif k == "elem":
             parts.append(["ref", "mat", draw(st.sampled_from(["1,1", "0,2", "1,0"])), draw(st.sampled_from([None, ".2e", ".1f"]))])
         else:
